@@ -8,7 +8,12 @@
     shots, duplicates, four unrelated tapes) and every history CacheGen.tla generated for the group's world are replayed
     through qp.execute(..., cache=True | dict | LRUCache) on default.qubit, with cache=False as the reference.
     code -> spec: the cache is a logging MutableMapping; the hit/miss/evict events, the returned result classes and the
-    exception class form a trace that Trace_Cache.tla validates (I1, I2 on the trace; lock step with Cache.tla = drift)."""
+    exception class form a trace that Trace_Cache.tla validates (I1, I2 on the trace; lock step with Cache.tla = drift).
+    Input classes of the generator (CacheKeyGen.tla): named gates x wrappers, every one-parameter two-qubit gate of the table
+    (both operator interfaces), operators with complex array data (QubitUnitary, DiagonalQubitUnitary, BlockEncode, StatePrep,
+    Hermitian / Projector observables; pairs differing in the imaginary parts only, the real parts only, transposed) and tape
+    objects DERIVED from an already hashed / executed tape (copy(shots= | trainable_params= | operations= | measurements=),
+    copy(), bind_new_parameters): the model key of an object is the key of its content."""
 import json
 import os
 import random
@@ -25,7 +30,7 @@ import pennylane as qp
 
 from .. import lib
 from ..codec import decode_gate
-from ..lib import CheckResult, Violation, ring_matrix_to_numpy
+from ..lib import CheckResult, Violation, angle_of, ring_matrix_to_numpy
 
 TOL = 1e-8
 MEAS = ("state", "expval", "var", "probs", "dm")
@@ -71,25 +76,100 @@ class LogCache(MutableMapping):
 
 
 # ----------------------------------------------------------------------------------------------- tapes
-def build_tape(trec, meas, M):
-    ops = [decode_gate(r, M) for r in trec["ops"]]
+DATA_OPS = ("QubitUnitary", "DiagonalQubitUnitary", "BlockEncode", "StatePrep")
+
+
+def decode_op(r, M):
+    """gate record -> operator; the data operators of CacheKeyGen carry their array as an exact ring matrix in r["m"]."""
+    if r["g"] not in DATA_OPS:
+        return decode_gate(r, M)
+    mat = ring_matrix_to_numpy(r["m"], M)
+    wires = [w - 1 for w in r["w"]]
+    if r["g"] == "QubitUnitary":
+        return qp.QubitUnitary(mat, wires=wires)
+    if r["g"] == "DiagonalQubitUnitary":
+        return qp.DiagonalQubitUnitary(np.diag(mat), wires=wires)
+    if r["g"] == "BlockEncode":
+        return qp.BlockEncode(mat, wires=wires)
+    return qp.StatePrep(mat[:, 0], wires=wires)
+
+
+def build_meas(trec, meas, M):
     meas = trec.get("mt") or meas
+    if trec.get("ot"):                       # the observable of expval / var is a data operator on wire 1
+        od = ring_matrix_to_numpy(trec["od"], M)
+        obs = qp.Hermitian(od, wires=[0]) if trec["ot"] == "Hermitian" else qp.Projector(od[:, 0], wires=[0])
+        if meas not in ("expval", "var"):
+            raise lib.MachineryError("a data observable is measured with expval / var only")
+        return qp.expval(obs) if meas == "expval" else qp.var(obs)
     if meas == "state":
-        m = qp.state()
-    elif meas == "expval":
-        m = qp.expval(qp.Z(0) @ qp.X(1))
-    elif meas == "expval2":
-        m = qp.expval(qp.Z(0))
-    elif meas == "var":
-        m = qp.var(qp.Z(0) @ qp.X(1))
-    elif meas == "probs":
-        m = qp.probs(wires=[0, 1, 2])
-    else:
-        m = qp.density_matrix(wires=[0, 1, 2])
+        return qp.state()
+    if meas == "expval":
+        return qp.expval(qp.Z(0) @ qp.X(1))
+    if meas == "expval2":
+        return qp.expval(qp.Z(0))
+    if meas == "var":
+        return qp.var(qp.Z(0) @ qp.X(1))
+    if meas == "probs":
+        return qp.probs(wires=[0, 1, 2])
+    return qp.density_matrix(wires=[0, 1, 2])
+
+
+def build_tape(trec, meas, M):
+    ops = [decode_op(r, M) for r in trec["ops"]]
     shots = trec["shots"][0] if trec["shots"] else None
-    t = qp.tape.QuantumScript(ops, [m], shots=shots)
+    t = qp.tape.QuantumScript(ops, [build_meas(trec, meas, M)], shots=shots)
     t.trainable_params = list(trec["tr"])
     return t
+
+
+_MEMO_DEV = []
+
+
+def derive_tape(src, trec, meas, M):
+    """The tape object the TLC group asks for: obtained from `src` (tape 1 of the group) through the tape API `dv`, after the
+    hash of `src` was memoised in the way `dmemo` says.  The content must be the one the model computed (Derive)."""
+    via, memo = trec["dv"], trec["dmemo"]
+    if memo == "hash":
+        _ = src.hash
+    elif memo == "exec":
+        if not _MEMO_DEV:
+            _MEMO_DEV.append(qp.device("default.qubit", seed=11))
+        with warnings.catch_warnings():
+            warnings.simplefilter("ignore")
+            qp.execute([src], _MEMO_DEV[0], cache=True)
+            _ = src.hash
+    if via == "shots0":
+        t = src.copy(shots=None)
+    elif via == "shots1":
+        t = src.copy(shots=1)
+    elif via == "tr":
+        t = src.copy(trainable_params=list(trec["tr"]))
+    elif via == "ops":
+        t = src.copy(operations=[decode_op(r, M) for r in trec["ops"]])
+    elif via == "bind":
+        t = src.bind_new_parameters([angle_of(trec["ops"][-1]["p"][0], M)], [len(src.get_parameters(trainable_only=False)) - 1])
+    elif via == "meas":
+        t = src.copy(measurements=[build_meas(trec, meas, M)])
+    elif via == "plain":
+        t = src.copy()
+    elif via == "copyops":
+        t = src.copy(copy_operations=True)
+    else:
+        raise lib.MachineryError(f"unknown derivation {via}")
+    want = build_tape(trec, meas, M)          # a freshly constructed tape with the content of the model
+    if (list(t.trainable_params) != list(want.trainable_params) or t.shots != want.shots or len(t.operations) != len(want.operations)
+            or any(not qp.equal(a, b) for a, b in zip(t.operations, want.operations))
+            or any(not qp.equal(a, b) for a, b in zip(t.measurements, want.measurements))):
+        raise lib.MachineryError(f"derivation {via}: the derived tape does not have the content of the model")
+    return t
+
+
+def build_tapes(grp, meas, M):
+    out = []
+    for trec in grp["tapes"]:
+        out.append(derive_tape(out[0], trec, meas, M) if trec.get("dv") else build_tape(trec, meas, M))
+    return out
 
 
 def term_name(op):
@@ -121,6 +201,10 @@ def family(grp):
         return f"trainable-vs-shots[{f(a)}|{f(b)}]"
     if kind == "meas":
         return "meas:" + "-vs-".join(t["mt"] for t in grp["tapes"])
+    if kind.startswith("data-"):
+        return f"{kind}:{grp['mut']['what']}"
+    if kind == "derived":
+        return f"derived[{grp['mut']['what']}]"
     return f"{kind}:{name}"
 
 
@@ -149,7 +233,7 @@ class Instance:
 
     def __init__(self, gi, grp, meas, M, dev):
         self.gi, self.grp, self.meas = gi, grp, meas
-        self.tapes = [build_tape(t, meas, M) for t in grp["tapes"]]
+        self.tapes = build_tapes(grp, meas, M)
         self.nt = len(self.tapes)
         self.analytic = [not t["shots"] for t in grp["tapes"]]
         self.hash = [t.hash for t in self.tapes]
@@ -314,6 +398,15 @@ def _mc_join(started):
     return out
 
 
+def meas_types(g):
+    """The measurement types a group is instantiated with: those the group names, minus the analytic-only ones for a group with
+    a finite-shot tape; a group whose tapes fix their own measurement is instantiated once."""
+    if g["mut"]["kind"] == "meas" or any(t.get("mt") for t in g["tapes"]):
+        return ("expval",)
+    finite = any(t["shots"] for t in g["tapes"])
+    return tuple(m for m in MEAS if m in g["ms"] and (m in SHOT_MEAS or not finite))
+
+
 def risky(keyc, resc):
     """Two tapes share a key but not a result class (key soundness fails for the group on the model)."""
     n = len(keyc)
@@ -327,8 +420,15 @@ PRIORITY = ["key-collision:RX-period-2pi:state", "key-collision:ctrl-pow-RX-peri
 def violation_key(inst, trace, verdict):
     fam, meas = family(inst.grp), inst.meas
     if verdict == "wrong-result":
-        # tapes with one cache key and different cache=False results, or some other way of returning a wrong value
-        return f"key-collision:{fam}:{meas}" if risky(trace["key"], trace["res"]) else f"wrong-result:{fam}:{meas}"
+        # tapes with one cache key and different cache=False results, or some other way of returning a wrong value.
+        # key-collision: the collision is the one KeyModel (the canonicalisation rules as a model) has for the group;
+        # key-collision-unmodelled: the code identifies tapes that the rules of KeyModel keep apart (another rule, a stale
+        # memoised hash of a derived tape, data left out of the hash, ...)
+        if risky(trace["key"], trace["res"]):
+            mk = inst.grp.get("keyc")
+            modelled = mk is None or risky(mk, trace["res"])
+            return f"key-collision:{fam}:{meas}" if modelled else f"key-collision-unmodelled:{fam}:{meas}"
+        return f"wrong-result:{fam}:{meas}"
     x = trace["execs"][-1]
     how = "cachesize" if trace["kind"] == "true" else "user-LRUCache" if trace["kind"] == "lru" else "user-dict"
     if verdict == "hit-without-result":
@@ -379,8 +479,11 @@ def run(tier, seed):
     for gi, g in enumerate(groups):
         kind = g["mut"]["kind"]
         finite = any(t["shots"] for t in g["tapes"])
-        for m in (SHOT_MEAS if finite else MEAS):
-            if kind == "meas":
+        for m in meas_types(g):
+            if kind.startswith("data-") or kind == "derived":
+                # the data / derived-object classes are always exercised with two measurement types
+                (chosen if m in (("expval", "var") if g["ms"] == ["expval", "var"] else ("expval", "state")) else rest).append((gi, m))
+            elif kind == "meas":
                 if m == "expval":
                     chosen.append((gi, m))
             elif kind == "inj4":
@@ -392,7 +495,7 @@ def run(tier, seed):
                 chosen.append((gi, m))
             else:
                 rest.append((gi, m))
-    n_sample = 200 if quick else 600
+    n_sample = 240 if quick else 700
     rng.shuffle(rest)
     chosen += rest[:n_sample]
     # hash binding on ALL groups (one measurement type): model key classes == classes of tape.hash ?
@@ -400,14 +503,14 @@ def run(tier, seed):
     chosen_set = set(chosen)
     for gi, g in enumerate(groups):
         finite = any(t["shots"] for t in g["tapes"])
-        tp = [build_tape(t, "expval", M) for t in g["tapes"]]
+        tp = build_tapes(g, "expval", M)
         hs = [t.hash for t in tp]
         kc = [next(j + 1 for j in range(i + 1) if hs[j] == hs[i]) for i in range(len(hs))]
         key_checked += 1
         if kc != g["keyc"]:
             key_drift += 1
             # the code identifies tapes the model separates (or the reverse): replay the group whatever the model says
-            for m in (("expval",) if g["mut"]["kind"] == "meas" else SHOT_MEAS if finite else MEAS):
+            for m in meas_types(g):
                 if (gi, m) not in chosen_set:
                     extra.append((gi, m))
     chosen += extra
@@ -460,6 +563,12 @@ def run(tier, seed):
                 meta.append((inst, h, literal, det))
     if not traces:
         raise lib.MachineryError("nothing replayed")
+    cls_of = lambda g: ("data:" + g["mut"]["what"] if g["mut"]["kind"].startswith("data-") else
+                        "derived:" + g["mut"]["what"].split("/")[1] if g["mut"]["kind"] == "derived" else "gates")
+    by_class = Counter(cls_of(groups[gi]) for gi, _ in chosen)
+    gates_replayed = sorted({groups[gi]["tapes"][0]["ops"][-1]["g"] for gi, _ in chosen if cls_of(groups[gi]) == "gates"})
+    if not any(k.startswith("data:") for k in by_class) or not by_class.get("derived:hash") or not by_class.get("derived:exec"):
+        raise lib.MachineryError("vacuous: no data-operator group / no tape derived from a hashed or executed tape was replayed")
     _dbg(f"replay done traces={len(traces)} execs={n_exec}")
     # ---- (5) negative controls: corrupt one recorded field of an accepted-looking trace
     neg = {}
@@ -567,7 +676,7 @@ def run(tier, seed):
                            "model_histories_unsound": sum(1 for h in cg.json_lines if not h["sound"]),
                            "mc_keysound_unbounded": {"states": mca.distinct, "invariants": ["NoMissing", "Sound", "NoPendingAtRest", "UniqueKeys"], "held": True},
                            "mc_keysound_small_lru": {"states": mcb.distinct, "violated": mcb.invariant_violated}},
-           "instances_replayed": len(chosen), "executions_with_cache": n_exec, "cache_hits_observed": hits, "evictions_observed": evictions,
+           "instances_replayed": len(chosen), "instances_by_input_class": dict(by_class), "gates_under_test_replayed": gates_replayed, "executions_with_cache": n_exec, "cache_hits_observed": hits, "evictions_observed": evictions,
            "trace_verdicts": dict(by_verdict), "violation_keys": dict(seen_keys),
            "model_predicted_bad_histories": predicted_bad, "model_predicted_bad_confirmed_on_code": predicted_confirmed,
            "rejected_but_not_predicted_by_model": unpredicted,
